@@ -2,6 +2,7 @@
 handles known findings, replays counter-models natively, writes evidence, sets the exit code."""
 import importlib
 import json
+import random
 import multiprocessing
 import os
 import re
@@ -209,6 +210,7 @@ def run_property(prop, tier, seed):
     n_ob = n_dis = 0
     undecided = []
     violations = []
+    undecided_obs = []
     candidates = []
     known_hit = []
     crashes = []
@@ -259,6 +261,7 @@ def run_property(prop, tier, seed):
                 candidates.append((ob, r["function"]))
             else:
                 undecided.append("%s: solver unknown (%s)" % (ob["name"], ob.get("reason")))
+                undecided_obs.append((ob, r["function"]))
         if cnt == 0:
             vacuity.append("no obligations generated for %s" % r["function"])
         fn_report.append({"function": r["function"], "file": r.get("file"), "lines": r.get("lines"),
@@ -273,6 +276,26 @@ def run_property(prop, tier, seed):
         else:
             undecided.append("%s: solver unknown (%s); weakened-query candidate did not reproduce on the real code"
                              % (ob["name"], ob.get("reason")))
+            undecided_obs.append((ob, fn))
+    # ---- undecided obligations: probe the real code with pseudo-random inputs (a violation only if it reproduces)
+    probed = {}
+    still = []
+    for u in undecided_obs:
+        ob, fn = u
+        if ob["name"] in probed:
+            continue
+        hit = None
+        rnd = random.Random(seed * 7919 + len(probed))
+        for attempt in range(int(os.environ.get("VERIF_PROBES", "12"))):
+            nat = native_replay(fn, ob["name"], {"model": {"__random__": rnd.randrange(1 << 30)}, "choices": []},
+                                prop.CONTRACT_MODULES, repo)
+            if nat.get("reproduced") is True and nat.get("pre_holds_natively"):
+                hit = (dict(ob, model=nat.get("inputs"), native=nat, backend="native-probe"), fn)
+                break
+        probed[ob["name"]] = hit
+        if hit:
+            violations.append(hit)
+    undecided = [u for u in undecided if not any(probed.get(n) for n in probed if u.startswith(n))]
     # ---- bounded sub-checks (never counted as discharged obligations)
     bounded = []
     for bc in getattr(prop, "BOUNDED", []):
@@ -301,12 +324,26 @@ def run_property(prop, tier, seed):
         hit = [ob["name"] for r in rs for ob in r.get("obligations", []) if ob["status"] == "refuted"
                and ob.get("expected") != "sat" and relevant(ob, tags)]
         if not hit:
+            # solver-undecided obligations: candidate models first, then pseudo-random probes, on a scratch copy with the edit
+            edits_ = [(bk["module"], bk["old"], bk["new"])]
+            names_done = set()
             for r in rs:
                 for ob in r.get("obligations", []):
-                    if ob["status"] == "candidate" and relevant(ob, tags) and not hit:
-                        nat = native_replay(r["function"], ob["name"], ob, prop.CONTRACT_MODULES, repo, edits=[(bk["module"], bk["old"], bk["new"])])
+                    if hit or ob["status"] not in ("candidate", "unknown") or not relevant(ob, tags) or ob["name"] in names_done:
+                        continue
+                    names_done.add(ob["name"])
+                    tries = []
+                    if ob["status"] == "candidate":
+                        tries.append(ob)
+                    rnd = random.Random(seed * 7919 + len(names_done))
+                    tries += [{"model": {"__random__": rnd.randrange(1 << 30)}, "choices": []}
+                              for _ in range(int(os.environ.get("VERIF_PROBES", "12")))]
+                    for t in tries:
+                        nat = native_replay(r["function"], ob["name"], t, prop.CONTRACT_MODULES, repo, edits=edits_)
                         if nat.get("reproduced") is True and nat.get("pre_holds_natively"):
-                            hit.append(ob["name"] + " (candidate reproduced natively)")
+                            hit.append(ob["name"] + " (reproduced on the real code from a %s)" % (
+                                "candidate model" if t is ob else "pseudo-random probe"))
+                            break
         bad = [r for r in rs if r["status"] != "ok"]
         if bad and "does not apply exactly once" in (bad[0].get("error") or ""):
             selfval.append({"breaker": bk["desc"], "skipped": "source text of the seeded edit is not present in this tree"})
